@@ -231,6 +231,7 @@ func (am *AccountingManager) Stop() error {
 		am.drainAllSessions()
 	}
 
+	am.verifCrashPoint(11, "")
 	// Persist pending records before shutdown
 	if err := am.persistPendingRecords(); err != nil {
 		am.logger.Warn("Failed to persist pending records", zap.Error(err))
@@ -279,6 +280,7 @@ func (am *AccountingManager) StartSession(session *AccountingSession) error {
 		RemoteID:   session.RemoteID,
 	}
 
+	am.verifCrashPoint(1, session.SessionID)
 	ctx, cancel := context.WithTimeout(am.ctx, 5*time.Second)
 	defer cancel()
 
@@ -291,6 +293,7 @@ func (am *AccountingManager) StartSession(session *AccountingSession) error {
 		)
 	}
 
+	am.verifCrashPoint(2, session.SessionID)
 	// Persist session for crash recovery
 	am.persistActiveSession(session)
 
@@ -316,9 +319,11 @@ func (am *AccountingManager) StopSession(sessionID string, terminateCause uint32
 	session.StopCause = terminateCause
 	am.sessionsMu.Unlock()
 
+	am.verifCrashPoint(3, sessionID)
 	// Persist state before attempting stop
 	am.persistActiveSession(session)
 
+	am.verifCrashPoint(4, sessionID)
 	// Send Accounting-Stop
 	if err := am.sendAccountingStop(session, terminateCause); err != nil {
 		am.logger.Warn("Failed to send Accounting-Stop immediately, queued for retry",
@@ -327,11 +332,13 @@ func (am *AccountingManager) StopSession(sessionID string, terminateCause uint32
 		)
 	}
 
+	am.verifCrashPoint(5, sessionID)
 	// Remove from active sessions
 	am.sessionsMu.Lock()
 	delete(am.sessions, sessionID)
 	am.sessionsMu.Unlock()
 
+	am.verifCrashPoint(6, sessionID)
 	// Remove persisted session
 	am.removePersistedSession(sessionID)
 
@@ -469,6 +476,7 @@ func (am *AccountingManager) sendInterimUpdate(session *AccountingSession) {
 		RemoteID:      session.RemoteID,
 	}
 
+	am.verifCrashPoint(17, session.SessionID)
 	ctx, cancel := context.WithTimeout(am.ctx, 5*time.Second)
 	defer cancel()
 
@@ -572,6 +580,7 @@ func (am *AccountingManager) pendingRecordProcessor() {
 
 // processPendingRecord attempts to send a pending record
 func (am *AccountingManager) processPendingRecord(record *PendingAcctRecord) {
+	am.verifCrashPoint(7, record.ID)
 	ctx, cancel := context.WithTimeout(am.ctx, 5*time.Second)
 	defer cancel()
 
@@ -694,6 +703,8 @@ func (am *AccountingManager) drainAllSessions() {
 
 // sendAccountingStopSync sends an Accounting-Stop synchronously with the given context
 func (am *AccountingManager) sendAccountingStopSync(ctx context.Context, session *AccountingSession, terminateCause uint32) {
+	am.verifCrashPoint(9, session.SessionID)
+	defer am.verifCrashPoint(10, session.SessionID)
 	counters := am.fetchCounters(session.SessionID)
 	sessionTime := uint32(time.Since(session.StartTime).Seconds())
 
@@ -832,16 +843,19 @@ func (am *AccountingManager) recoverOrphanedSessions() error {
 			Class:          session.Class,
 		}
 
+		am.verifCrashPoint(13, session.SessionID)
 		ctx, cancel := context.WithTimeout(am.ctx, 5*time.Second)
 		if err := am.client.SendAccounting(ctx, req); err != nil {
 			am.queuePendingRecord(req)
 		}
 		cancel()
 
+		am.verifCrashPoint(14, session.SessionID)
 		atomic.AddUint64(&am.orphanedRecovered, 1)
 		os.Remove(path)
 	}
 
+	am.verifCrashPoint(15, "")
 	// Recover pending records
 	pendingPath := filepath.Join(am.persistPath, "pending.json")
 	data, err := os.ReadFile(pendingPath)
@@ -868,6 +882,7 @@ func (am *AccountingManager) recoverOrphanedSessions() error {
 	atomic.StoreUint64(&am.pendingQueueDepth, uint64(len(am.pendingRecords)))
 	am.pendingMu.Unlock()
 
+	am.verifCrashPoint(16, "")
 	am.logger.Info("Recovered pending accounting records", zap.Int("count", len(records)))
 	os.Remove(pendingPath)
 
